@@ -45,13 +45,7 @@ def judge(t):
     R = t.R
     opts = scn.get('options', {})
 
-    # known finding D18: the file fetched as m holds m (fine) and another module whose symbol-table stage
-    # fails; the failure is booked under the lookup name m although m itself is compiled.
-    cores = set()
-    for c in t.by('symtab.genCode'):
-        if not c.ok and c.ctx is not None and c.mib != c.ctx:
-            if any(d.ok and d.mib == c.ctx and d.ctx == c.ctx for d in t.by('symtab.genCode')):
-                cores.add(c.ctx)
+    cores = set()      # (D18 is repaired: no name is exempt any more)
 
     def V(clause, msg, **facts):
         key = '%s|%s' % (clause, facts.get('what', ''))
@@ -79,16 +73,16 @@ def judge(t):
             V('C07.2-accounted', 'status of %s is %r, not one of the six documented statuses' % (k, v), what='bad-status')
     need = list(scn['requested'])
     from verif.gen import mibgen
-    for c in t.by('symtab.genCode'):
-        if c.ok:
-            need.extend(c.res[0].imported)
-            sp = scn.get('modules', {}).get(c.mib)
-            if sp is not None:
-                # ground truth: the modules the text names in its IMPORTS clause
-                need.extend(mibgen.declared_imports(sp))
+    taken = [m for a in cs.attempts_of(t) if a['ok'] for m in a['mods']]       # modules of files that were taken
+    for (mname, _ast, minfo) in taken:
+        need.extend(minfo.imported)
+        sp = scn.get('modules', {}).get(mname)
+        if sp is not None:
+            # ground truth: the modules the text names in its IMPORTS clause
+            need.extend(mibgen.declared_imports(sp))
     # a name is also accounted for when the file fetched under it yielded modules with other
     # names (file named unlike its module: the result is keyed by the canonical module names)
-    aliased = set(c.ctx for c in t.by('symtab.genCode') if c.ok and c.ctx != c.mib)
+    aliased = set(a['name'] for a in cs.attempts_of(t) if a['ok'] for (m, _x, _y) in a['mods'] if m != a['name'])
     missing_keys = sorted(set(n for n in need if n not in R and n not in aliased))
     if missing_keys:
         req = [n for n in missing_keys if n in scn['requested']]
